@@ -30,6 +30,7 @@ struct DataExpr<'l>
 	addr: u32,
 	arg: Argument<'l>,
 	writer: fn(&mut Context, &mut DataExpr<'_>) -> Result<(), ErrorLevel>,
+	placed: bool,
 }
 
 impl<'l> DataExpr<'l>
@@ -37,7 +38,7 @@ impl<'l> DataExpr<'l>
 	fn new(dir_name: &'static str, file_name: Arc<String>, line: u32, col: u32, addr: u32, arg: Argument<'l>,
 		writer: fn(&mut Context, &mut DataExpr<'_>) -> Result<(), ErrorLevel>) -> Self
 	{
-		Self{dir_name, file_name, line, col, addr, arg, writer}
+		Self{dir_name, file_name, line, col, addr, arg, writer, placed: false}
 	}
 	
 	fn push_error<E: Error + 'static>(&mut self, ctx: &mut Context, source: E)
@@ -61,6 +62,7 @@ impl<'l> DataExpr<'l>
 			addr: self.addr,
 			arg: self.arg.into_owned(),
 			writer: self.writer,
+			placed: self.placed,
 		}
 	}
 	
@@ -96,6 +98,16 @@ impl<'l> DataExpr<'l>
 	{
 		match ctx.active_mut()
 		{
+			Some(active) if !self.placed =>
+			{
+				// the first write of a statement always appends (the cursor saturates at the end of the address space)
+				if let Err(e) = active.write(data)
+				{
+					self.push_error(ctx, DataError::Write(e));
+					return Err(ErrorLevel::Fatal);
+				}
+				self.placed = true;
+			},
 			Some(active) if self.addr >= active.base_addr() && self.addr <= active.curr_addr() =>
 			{
 				if let Err(e) = active.write_at(self.addr, data)
